@@ -504,7 +504,28 @@ def run(tier, logdir):
         queries.append({"name": "lock discipline T<S<M, no join under S/M: %d functions, %d complete paths, %d feasibility queries" % (nfn, an.paths, an.queries),
                         "verdict": "PASS", "bounds": "every normal (non-unwind) MIR path of every function in progress_bar.rs, multi.rs, state.rs, draw_target.rs, iter.rs", "wall_s": round(an.solver_s, 2),
                         "solver": {"z3+cvc5": "path feasibility"}})
-        queries += an.lifecycle()
+        life = an.lifecycle()
+        if any(q["verdict"] == "FAIL" for q in life):
+            # a structural finding about the ticker life cycle is only reported after a native stress run confirms it:
+            # stopping / replacing / dropping the ticker must be prompt whatever the tick interval is
+            ok, detail = native_lifecycle(root)
+            for q in life:
+                if q["verdict"] != "FAIL":
+                    continue
+                if ok is False:
+                    art_dir = os.path.join(OUT_DIR, "replays", "C08")
+                    os.makedirs(art_dir, exist_ok=True)
+                    art = os.path.join(art_dir, "ticker_lifecycle.json")
+                    with open(art, "w") as fh:
+                        json.dump({"property": "C08", "function": "TickerControl::run / Ticker::stop / tick_inner", "violation": q["name"], "why": q.get("why"), "native": detail,
+                                   "how": "bin/check C08 --replay <this file>: re-runs the native stress test (enable_steady_tick(30 s) / disable_steady_tick, 300 rounds with varying delays; every stop must return within 3 s)"}, fh, indent=1)
+                    q["replayed"] = True
+                    q["replay_path"] = art
+                    q["why"] = "%s; native stress run: %s" % (q.get("why"), detail)
+                else:
+                    q["verdict"] = "INCONCLUSIVE"
+                    q["why"] = "%s; the native stress run %s" % (q.get("why"), "did not reproduce a slow stop" if ok else "could not be run: " + str(detail))
+        queries += life
         enc = sorted(fn.short for n, fn in an.fns.items() if n.startswith(("progress_bar", "multi")))[:60]
     except (M.Unsupported, M.Nonlinear, KeyError, IndexError, AttributeError) as e:
         queries.append({"name": "MIR lock analysis", "verdict": "BROKEN", "why": "%s: %s" % (type(e).__name__, e), "wall_s": 0})
@@ -512,8 +533,83 @@ def run(tier, logdir):
     return {"queries": queries, "assumptions": assumptions, "encodes": enc, "bounds": ["engine M (lock discipline): every MIR path, loops cut at repeated (block, held-set, flags) states"]}
 
 
+LIFECYCLE_TEST = r'''
+#[cfg(test)]
+mod verif_c08_lifecycle {
+    use super::*;
+    use std::time::{Duration, Instant};
+
+    #[test]
+    fn verif_c08_stop_is_prompt() {
+        let _guard = TICKER_TEST.lock().unwrap();
+        let (tx, rx) = std::sync::mpsc::channel::<(u64, Duration)>();
+        std::thread::spawn(move || {
+            for i in 0..300u64 {
+                let pb = ProgressBar::hidden();
+                pb.enable_steady_tick(Duration::from_secs(30));
+                // vary the delay so that the stop request meets the ticker thread starting up, ticking or sleeping
+                match i % 3 {
+                    0 => {}
+                    1 => std::thread::yield_now(),
+                    _ => std::thread::sleep(Duration::from_micros(i * 37 % 700)),
+                }
+                let t0 = Instant::now();
+                match i % 4 {
+                    0 => pb.disable_steady_tick(),
+                    1 => pb.enable_steady_tick(Duration::from_secs(30)), // replaces (stops and joins) the previous ticker
+                    _ => pb.finish(),                                    // a finished bar makes the ticker leave by itself
+                }
+                drop(pb);
+                if tx.send((i, t0.elapsed())).is_err() {
+                    return;
+                }
+            }
+        });
+        let mut worst = Duration::ZERO;
+        for _ in 0..300 {
+            // watchdog: a stop that never returns must not hang the check
+            match rx.recv_timeout(Duration::from_secs(5)) {
+                Ok((i, dt)) => {
+                    if dt > worst {
+                        worst = dt;
+                    }
+                    if dt > Duration::from_secs(3) {
+                        println!("LIFECYCLE slow_stop round={} took_ms={}", i, dt.as_millis());
+                        std::process::exit(0);
+                    }
+                }
+                Err(_) => {
+                    println!("LIFECYCLE slow_stop a stop / replace / drop of the ticker did not return within 5 s (tick interval 30 s)");
+                    std::process::exit(0);
+                }
+            }
+        }
+        println!("LIFECYCLE prompt worst_ms={}", worst.as_millis());
+    }
+}
+'''
+
+
+def native_lifecycle(root):
+    """-> (True prompt / False slow stop reproduced / None could not run, detail)"""
+    from props.C05 import native_test
+    try:
+        rc, out = native_test(root, "progress_bar.rs", LIFECYCLE_TEST, "verif_c08_stop_is_prompt", timeout=900)
+    except Exception as e:  # noqa
+        return None, repr(e)
+    m = re.search(r"LIFECYCLE (slow_stop|prompt) (.*)", out)
+    if not m:
+        pm = re.search(r"panicked at [^\n]*\n[^\n]*", out)
+        return None, (pm.group(0) if pm else out[-400:])
+    return (m.group(1) == "prompt"), m.group(0)
+
+
 def replay(path):
     d = json.load(open(path))
+    if "native" in d:
+        ok, detail = native_lifecycle(common.scratch_root())
+        say(detail)
+        return 2 if ok is None else (0 if ok else 1)
     r = run("quick", None)
     hit = [q for q in r["queries"] if q["verdict"] == "FAIL" and d["function"] in q["name"] and d["violation"] in q["name"]]
     if hit:
